@@ -35,4 +35,40 @@ CHECKS['C20'] = {
           '(validated at every swept offset); file names sort in creation order (driven clock); simplejson stub',
   'technique': 'Coq proof (induction over histories) + refutation witnesses + model/implementation correspondence with crash injection at every byte offset',
 }
+CHECKS['C14'] = {
+  'text': 'Coq theorems at full strength, for all field values and unbounded capability lists: OPEN round trip incl. the AS_TRANS rule and the '
+          'no-optional-parameter case (C14_open_roundtrip), decoding of an independent RFC reference encoder for any capability subset/order/'
+          'packaging (C14_open_decodes_reference), construct = reference encoding, NOTIFICATION / KEEPALIVE / ROUTE-REFRESH round trips. Models tied '
+          'to the code by correspondence (2^7 capability-key subsets x AS/hold/id boundaries, reference-encoded and malformed bodies) and the round-trip '
+          'oracle on the real codecs.',
+  'note': 'hand-written models coq/model/YMsg.v, YOpen.v; capability code constants and AFI/SAFI tables copied into the model and compared with the '
+          'live modules each run; Python struct trusted; model is of the code with fix e89d08b (Open.parse return value)',
+  'technique': 'Coq proof (round-trip and reference-encoder theorems) + model/implementation correspondence via vm_compute',
+}
+CHECKS['C10'] = {
+  'text': 'Coq theorems for every decoder behaviour (decoders are parameters of the session model): nothing escapes along any event sequence from boot '
+          '(C10_no_escape: no unhandled exception, no non-terminating receive loop; invariant over the generated FSM + glue), at most one report per '
+          'well-framed message, a malformed UPDATE keeps the Established session, re-arms the hold timer and leaves the connection record (decode mode) '
+          'untouched. Tie: FSM regenerated from fsm.py; glue by correspondence on hostile inputs (every bytes literal of the unit tests as UPDATE body, '
+          'mutations, random) in OpenSent/OpenConfirm/Established followed by known-good messages; oracle on the implementation incl. CPU budget.',
+  'note': 'the reconnect clause is covered by the oracle here and by C02; decoders termination is C11; Twisted stub; handler callbacks assumed not to raise',
+  'technique': 'Coq proof (invariant by induction over event lists, generic preservation over generated FSM code) + translator + exploration correspondence',
+}
+CHECKS['C18'] = {
+  'text': 'Coq theorem: over any history (unbounded) during the lifetime of the tracked connection, for every decoder behaviour, every sent counter grows by '
+          'exactly the number of messages of that type written to it (C18_sent_counters_match); exact characterisation of what one dispatched frame adds '
+          'to the receive counters (C18_recv_counts) with the three deviations from the property as known findings. Tie: generated FSM + exploration '
+          'correspondence; oracle compares every counter with the simulated transport write log and an independent deframer on every explored path.',
+  'note': 'model is of the code with fixes b82538e (NOTIFICATION counted twice) and de42791 (send_bin_update); known findings C18-short-open-counted, '
+          'C18-update-decode-exception-not-counted, C18-rr-length-not-counted; single-connection lifetime (see C12 for overlapping connections)',
+  'technique': 'Coq proof (additive invariant, induction over event lists) + translator + exploration correspondence',
+}
+CHECKS['C19'] = {
+  'text': 'Coq theorems (unbounded update lists, duplicates allowed): model/YRib.v refines the finite-map spec for Adj-RIB-In/Out, tables empty after a drop, '
+          'every version counter moves by exactly the number of table changes per family and direction. Model tied to protocol.py by whole-state per-event '
+          'correspondence on exhaustive short and random traces through dataReceived, the protocol calls and the REST view, plus an independent dictionary oracle.',
+  'note': 'model is of the code with fix af203e7; received VPNv4 withdrawals are known finding C19-vpnv4-withdraw-label (refuted theorem + theorem for identity '
+          'incl. label); Update codecs, value interning and key-string injectivity trusted',
+  'technique': 'Coq proof (refinement to an abstract map, induction over update lists) + model/implementation correspondence via vm_compute',
+}
 NOT_CLAIMED = {}
